@@ -2,6 +2,7 @@ from __future__ import annotations
 
 from io import TextIOWrapper
 from pathlib import Path
+from threading import RLock
 from typing import List
 from typing import Optional
 from typing import Type
@@ -30,6 +31,11 @@ from .blueprints import TableBlueprint
 from .blueprints import TableGroupBlueprint
 
 pp.ParserElement.set_default_whitespace_chars(" \t\r")
+
+# The grammar elements are module-level singletons shared by all parser instances,
+# and pyparsing mutates them lazily while parsing (streamlining, cached names), so
+# only one thread at a time may use them.
+_grammar_lock = RLock()
 
 
 class PyDBML:
@@ -132,8 +138,9 @@ class PyDBMLParser:
         self._dbml_renderer = dbml_renderer
 
     def parse(self):
-        self._set_syntax()
-        self._syntax.parse_string(self.source, parseAll=True)
+        with _grammar_lock:
+            self._set_syntax()
+            self._syntax.parse_string(self.source, parseAll=True)
         self.build_database()
         return self.database
 
